@@ -105,10 +105,10 @@ def spec_env(ex):
                  intern=lambda s: ex.intern(s))
 
 
-def run_tok_job(job, build, corpus, oracle, max_validate=400, step_budget=600000):
+def run_tok_job(job, build, corpus, oracle, max_validate=400, step_budget=600000, models=None):
     fs = job.get("fs", "none")
     prog = tok.load_program(build, fs)
-    ex = tok.new_exec(prog, step_budget=step_budget)
+    ex = tok.new_exec(prog, models=models, step_budget=step_budget)
     g = corpus[job["grammar"]]
     shape = tuple(job["shape"])
     layout = prog.layout
